@@ -1094,11 +1094,13 @@ fn gen_input(rng: &mut Rng, p: &Protos, spec: &Spec, sub_rows: &[Vec<usize>], th
     });
     let mut water_chunks: Vec<usize> = Vec::new();
     let mh2o = top("MH2O").then(|| {
-        let n = match rng.below(4) {
+        // (4: a water table that is dry on every chunk - handed over as 256 empty entries or as an empty list; after C14-r7m3)
+        let n = match rng.below(5) {
             0 => 1,
             1 => 2 + rng.usize(6),
             2 => 30 + rng.usize(100),
-            _ => 256,
+            3 => 256,
+            _ => 0,
         };
         let mut all: Vec<usize> = (0..256).collect();
         rng.shuffle(&mut all);
